@@ -543,6 +543,9 @@ def _add_queries_evidence(rng, prog, names_hint=None):
             defined[(h[0], len(h[1]))] = True
     consts = prog.constants() or ["a"]
     ptl = sorted(pt) if pt else []
+    # prefer goals whose dependency cone is not trivial: atoms of predicates defined by a clause with a body
+    with_body = set((h[0], len(h[1])) for s in prog.clauses() if stmt_body(s) for h in stmt_heads(s))
+    ptd = [g for g in ptl if (g[0], len(g[1])) in with_body]
 
     def gatom_to_atom(g):
         return (g[0], tuple(C(c) for c in g[1]))
@@ -555,7 +558,7 @@ def _add_queries_evidence(rng, prog, names_hint=None):
     for _ in range(nq):
         r = rng.random()
         if r < 0.55 and ptl:
-            q = gatom_to_atom(rng.choice(ptl))
+            q = gatom_to_atom(rng.choice(ptd if (ptd and rng.random() < 0.8) else ptl))
         elif r < 0.8 and any(ar > 0 for _, ar in defined):
             p, ar = rng.choice(sorted(k for k in defined if k[1] > 0))
             args = []
@@ -577,7 +580,7 @@ def _add_queries_evidence(rng, prog, names_hint=None):
     ne = rng.choice([0, 0, 0, 1, 1, 2])
     for _ in range(ne):
         if ptl and rng.random() < 0.85:
-            a = gatom_to_atom(rng.choice(ptl))
+            a = gatom_to_atom(rng.choice(ptd if (ptd and rng.random() < 0.6) else ptl))
         else:
             a = random_ground()
         stmts.append(("evid", a, rng.random() < 0.6))
